@@ -167,6 +167,14 @@ class World:
             res.append(traffic.canon(traffic.feed(dec, item)))
         except Exception as e:
             res.append(("error", type(e).__name__, str(e)))
+        # a valid frame of a multi-definition PGN without fallback (its dispatcher also sees payloads no definition matches)
+        for key in ("65285/airmarBootStateAcknowledgment", "65286/chetcoDimmer"):
+            dd = canboat.db().by_key[key]
+            bp, bn, _ = gen.benign_payload(dd)
+            try:
+                res.append(traffic.canon(traffic.feed(dec, {"kind": "single", "pgn": dd.pgn, "src": PROBE_SRC, "dest": 255, "data": bp.to_bytes(bn, "little")[:8]})))
+            except Exception as e:
+                res.append(("error", type(e).__name__, str(e)))
         gp, gn, _ = gen.benign_payload(canboat.db().by_key["129029/gnssPositionData"])
         seq = (last_seq.get((129029, PROBE_SRC, 255), 6) + 1) % 8
         # a first frame that was rejected with an error has not used its counter: the probe may carry exactly that one
@@ -208,7 +216,7 @@ def run_case(n_dec, cfg_idx, oplist):
                 pass
         got = W.probe(dec, W.last_seq[di], W.rejected_seq[di])
         exp = W.probe(fresh, W.last_seq[di], W.rejected_seq[di])
-        for name, g, e in zip(("single", "fast"), got, exp):
+        for name, g, e in zip(("single", "multidef-65285", "multidef-65286", "fast"), got, exp):
             if g != e:
                 out.append((f"C16|probe-{name}", f"decoder {di} (config {CONFIGS[cfg_idx[di]]}): {name} probe after the history = {str(g)[:120]}, on a fresh decoder = {str(e)[:120]}", case))
     if W.owned_problem:
